@@ -29,7 +29,7 @@ Definition clean_squitter (line : list N) : option (list N) :=
 
 (** ---- CRC ---- *)
 Definition poly : N := 4294575232. (* 0xFFFA0480 *)
-Definition msb32 (d : N) : bool := N.testbit d 31.
+Definition msb32 (d : N) : bool := negb (N.land d 2147483648 =? 0).
 
 Definition crc56_step (d : N) : N :=
   shl32 (if msb32 d then N.lxor d poly else d) 1.
